@@ -8,7 +8,10 @@ import fcntl, hashlib, json, os, random, re, shutil, subprocess, sys, time
 
 VERIF = os.path.dirname(os.path.dirname(os.path.abspath(__file__)))
 REPO = os.environ.get("VERIF_REPO", "/repo")
-BUILD = os.path.join(VERIF, "build")
+# VERIF_REPO=<scratch worktree> runs the same checks against another copy of the sources (used to try
+# a candidate fix or a seeded change without touching /repo); it then gets its own build directory.
+BUILD = os.environ.get("VERIF_BUILD") or (os.path.join(VERIF, "build") if REPO == "/repo" else
+                                           os.path.join(VERIF, "build", "alt-" + hashlib.md5(REPO.encode()).hexdigest()[:8]))
 COQ = os.path.join(VERIF, "coq")
 THEORIES = os.path.join(COQ, "theories")
 GUARD = "MUSCLE_VERIF_HOOKS"
